@@ -242,6 +242,27 @@ type schedScn struct {
 	Compact func(log []string) string // outcome class for the distinct count
 }
 
+// verdict is what an oracle of this part raises (failf); judge turns it into a message. The explorer's own Failf is not
+// used while exploring: it would end the exploration at the first failing execution, so that an execution that only
+// shows a registered known finding would hide everything behind it.
+type verdict struct{ msg string }
+
+func failf(format string, a ...any) { panic(verdict{fmt.Sprintf(format, a...)}) }
+
+func judge(oracle func(x *sched.Exec), x *sched.Exec) (msg string) {
+	defer func() {
+		if r := recover(); r != nil {
+			v, ok := r.(verdict)
+			if !ok {
+				panic(r)
+			}
+			msg = v.msg
+		}
+	}()
+	oracle(x)
+	return ""
+}
+
 type noteSet map[string]bool
 
 func (n noteSet) add(s string) {
@@ -446,11 +467,11 @@ func (s pubScenario) scn(bound int, sleep bool, shards int) schedScn {
 				for _, q := range s.Reqs {
 					v, ok := m[q.Name]
 					if !ok {
-						sched.Failf("request %s was never answered", q.Name)
+						failf("request %s was never answered", q.Name)
 					}
 					ans[q.Name] = parseAnswer(v)
 					if !ans[q.Name].structured() {
-						sched.Failf("request %s: answer %q is neither a success with a published count nor a structured 4xx/5xx error", q.Name, v)
+						failf("request %s: answer %q is neither a success with a published count nor a structured 4xx/5xx error", q.Name, v)
 					}
 				}
 				if s.Depth > 0 {
@@ -461,7 +482,7 @@ func (s pubScenario) scn(bound int, sleep bool, shards int) schedScn {
 						}
 					}
 					if active > s.Depth {
-						sched.Failf("queue holds %d queued+leased rows, above max_depth %d (%s): answers %s, final rows [%s]", active, s.Depth, policyName, s.answersOnly(m), m["final"])
+						failf("queue holds %d queued+leased rows, above max_depth %d (%s): answers %s, final rows [%s]", active, s.Depth, policyName, s.answersOnly(m), m["final"])
 					}
 				}
 				if !s.Drop { // nothing is ever evicted: an id that was stored stays stored, so a second 200 for it accepted a duplicate
@@ -472,7 +493,7 @@ func (s pubScenario) scn(bound int, sleep bool, shards int) schedScn {
 							}
 							for _, id := range p.IDs {
 								if contains(q.IDs, id) {
-									sched.Failf("overlapping publishes %s and %s were both answered %d although both carry the same id %q (one of them had to be refused as a whole): answers %s, final rows [%s]",
+									failf("overlapping publishes %s and %s were both answered %d although both carry the same id %q (one of them had to be refused as a whole): answers %s, final rows [%s]",
 										p.Name, q.Name, ans[q.Name].Status, id, s.answersOnly(m), m["final"])
 								}
 							}
@@ -491,7 +512,7 @@ func (s pubScenario) scn(bound int, sleep bool, shards int) schedScn {
 							}
 						}
 					}
-					sched.Failf("%s:\n    observed %s (answers %s)\n    %s", what, s.outcomeClass(m), s.answersOnly(m), strings.Join(seqText, "\n    "))
+					failf("%s:\n    observed %s (answers %s)\n    %s", what, s.outcomeClass(m), s.answersOnly(m), strings.Join(seqText, "\n    "))
 				}
 				if !strict[s.answersOnly(m)] {
 					notes.add(s.answersOnly(m))
@@ -525,17 +546,15 @@ func pubScenarioSpecs(thorough bool) []pubScenario {
 		{"drop_oldest-depth=batch", 2, 0, true},
 	}
 	type shape struct {
-		name        string
-		ids         [][]string
-		quick       bool
-		sqliteQuick bool
+		name string
+		ids  [][]string
 	}
 	shapes := []shape{
-		{"same-ids", [][]string{{"a", "b"}, {"a", "b"}}, true, true},
-		{"overlap", [][]string{{"a", "b"}, {"c", "a"}}, true, false},
-		{"disjoint", [][]string{{"a", "b"}, {"c", "d"}}, true, true},
-		{"same+disjoint", [][]string{{"a", "b"}, {"a", "b"}, {"c", "d"}}, true, false},
-		{"three-disjoint", [][]string{{"a", "b"}, {"c", "d"}, {"e", "f"}}, true, false},
+		{"same-ids", [][]string{{"a", "b"}, {"a", "b"}}},
+		{"overlap", [][]string{{"a", "b"}, {"c", "a"}}},
+		{"disjoint", [][]string{{"a", "b"}, {"c", "d"}}},
+		{"same+disjoint", [][]string{{"a", "b"}, {"a", "b"}, {"c", "d"}}},
+		{"three-disjoint", [][]string{{"a", "b"}, {"c", "d"}, {"e", "f"}}},
 	}
 	var out []pubScenario
 	for _, backend := range []string{"memory", "sqlite"} {
@@ -545,13 +564,16 @@ func pubScenarioSpecs(thorough bool) []pubScenario {
 					continue // nothing to compete for
 				}
 				for _, lastScoped := range []bool{false, true} {
-					if !thorough {
-						if !sh.quick || (backend == "sqlite" && (!sh.sqliteQuick || lastScoped)) {
-							continue
-						}
+					if !thorough { // quick: three requests only with the scoped path among them; SQLite: not every shape on both path mixes
 						if len(sh.ids) == 3 && !lastScoped {
 							continue
 						}
+						if backend == "sqlite" && (len(sh.ids) == 3 || (lastScoped && sh.name != "same-ids")) {
+							continue
+						}
+					}
+					if backend == "sqlite" && len(sh.ids) == 3 && !lastScoped {
+						continue
 					}
 					s := pubScenario{Backend: backend, Depth: w.depth, Drop: w.drop, Prefill: w.prefill}
 					paths := "global"
@@ -564,16 +586,26 @@ func pubScenarioSpecs(thorough bool) []pubScenario {
 						s.Reqs = append(s.Reqs, q)
 					}
 					s.Name = fmt.Sprintf("publish||publish:%s:%s:%s:%s", backend, w.name, sh.name, paths)
-					// memory: every interleaving (unbounded, sleep-set reduction); SQLite: preemption bound 2 / 3
-					bound, sleep, shards := -1, true, 1
-					if backend == "sqlite" {
-						bound, sleep, shards = pick(thorough, 2, 3), false, pick(thorough, 4, 8)
-						if len(sh.ids) == 3 {
-							shards = 8
-						}
+					// every interleaving: unbounded, sleep-set reduction (SQLite: every access goes through the one pooled
+					// connection, whose acquisition is the scheduling point)
+					s.bound, s.sleep, s.shards = -1, true, 1
+					if backend == "sqlite" && len(sh.ids) == 3 {
+						// three requests on SQLite (thorough only): 15 connection acquisitions that all depend on each other
+						// are too many orders even with the reduction; preemption bound 2, sharded
+						s.bound, s.sleep, s.shards = 2, false, 8
 					}
-					s.bound, s.sleep, s.shards = bound, sleep, shards
 					out = append(out, s)
+					// thorough: the two-request scenarios once more WITHOUT the reduction, within a preemption bound
+					// (independent of the footprint bookkeeping the reduction relies on)
+					if thorough && len(sh.ids) == 2 {
+						pb := s
+						pb.sleep, pb.bound, pb.shards = false, 3, 2
+						if backend == "sqlite" {
+							pb.bound, pb.shards = 2, 4
+						}
+						pb.Name += fmt.Sprintf(":pb%d", pb.bound)
+						out = append(out, pb)
+					}
 				}
 			}
 		}
@@ -694,22 +726,22 @@ func (s reloadScenario) scn() schedScn {
 			oracle := func(x *sched.Exec) {
 				m := parseLog(x.Log)
 				if _, failed := m["RELOAD-FAILED"]; failed {
-					sched.Failf("reload of a valid, reloadable configuration failed")
+					failf("reload of a valid, reloadable configuration failed")
 				}
 				req, after := parseAnswer(m["req"]), parseAnswer(m["after"])
 				for name, a := range map[string]answer{"req": req, "after": after} {
 					if !a.structured() {
-						sched.Failf("request %s: answer %q is neither a success with a published count nor a structured 4xx/5xx error", name, m[name])
+						failf("request %s: answer %q is neither a success with a published count nor a structured 4xx/5xx error", name, m[name])
 					}
 				}
 				if m["after"] != neu["after"] {
-					sched.Failf("a publish made after the reload had completed was not judged by the new configuration:\n    observed %s (the overlapping publish: %s)\n    a fresh boot of the new configuration answers %s (old configuration: %s)",
+					failf("a publish made after the reload had completed was not judged by the new configuration:\n    observed %s (the overlapping publish: %s)\n    a fresh boot of the new configuration answers %s (old configuration: %s)",
 						m["after"], m["req"], neu["after"], old["req"])
 				}
 				// the statement fixes acceptance, not the code of a refusal: the overlapping request may be accepted only
 				// if the old or the new configuration accepts it, refused only if one of them refuses it
 				if req.class() != underOld.class() && req.class() != underNew.class() {
-					sched.Failf("the publish overlapping the reload was answered neither as under the old nor as under the new configuration:\n    observed  %s\n    under old %s\n    under new %s",
+					failf("the publish overlapping the reload was answered neither as under the old nor as under the new configuration:\n    observed  %s\n    under old %s\n    under new %s",
 						m["req"], old["req"], neu["req"])
 				}
 				if req.noIndex() != underOld.noIndex() && req.noIndex() != underNew.noIndex() {
@@ -725,7 +757,7 @@ func (s reloadScenario) scn() schedScn {
 						}
 					}
 					if (a.accepted() && n != len(ids)) || (!a.accepted() && n != 0) {
-						sched.Failf("publish is not all-or-nothing: request %s was answered %s but %d of its %d items are in the queue: [%s]", name, m[name], n, len(ids), m["final"])
+						failf("publish is not all-or-nothing: request %s was answered %s but %d of its %d items are in the queue: [%s]", name, m[name], n, len(ids), m["final"])
 					}
 				}
 				check("req", req, s.with("req", "a", "b").IDs...)
@@ -842,7 +874,8 @@ func schedReplayObject(name string, f *sched.Failure) map[string]any {
 	return map[string]any{"engine": "sched", "scenario": name, "schedule": f.Schedule, "trace": f.Trace, "log": f.Log, "message": f.Message}
 }
 
-// runSchedJob: one scenario shard in this (child) process.
+// runSchedJob: one scenario shard in this (child) process. Every execution is judged; the first failing execution
+// of every violation class (key) is kept and reported after the exploration, each re-checked by replaying its schedule.
 func runSchedJob(r *runner.Run, t *testing.T, j schedJob) {
 	s := j.scn
 	oracle, info, notes, err := s.Prepare(t)
@@ -850,17 +883,42 @@ func runSchedJob(r *runner.Run, t *testing.T, j schedJob) {
 		r.Infra("%v", err)
 		return
 	}
+	found := map[string]*sched.Failure{}
+	failing := 0
+	collect := func(x *sched.Exec) {
+		msg := judge(oracle, x)
+		if msg == "" {
+			return
+		}
+		failing++
+		key := s.VioKey(msg)
+		if _, ok := found[key]; ok || len(found) >= 8 {
+			return
+		}
+		sch := make([]int, len(x.Trace))
+		for i, p := range x.Trace {
+			sch[i] = p.Chosen
+		}
+		found[key] = &sched.Failure{Schedule: sch, Trace: x.TraceString(), Log: append([]string{}, x.Log...), Message: msg}
+	}
 	opt := sched.Options{Name: s.Name, Bound: s.Bound, Sleep: s.Sleep, Shard: j.shard, Shards: j.total,
-		MaxExecs: runner.Pick(r, 30000, 600000), Deadline: time.Now().Add(runner.Pick(r, 40*time.Second, 6*time.Minute)), OnExecution: oracle}
+		MaxExecs: runner.Pick(r, 30000, 600000), Deadline: time.Now().Add(runner.Pick(r, 40*time.Second, 6*time.Minute)), OnExecution: collect}
 	res := sched.Explore(t, opt, s.Body)
 	if res.InfraErr != nil {
 		r.Infra("%s: %v", s.Name, res.InfraErr)
 		return
 	}
+	if f := res.Failure; f != nil { // raised by the explorer itself (deadlock / horizon): the exploration ended there
+		found["sched-deadlock:"+s.Name] = f
+		res.Exhaustive = false
+	}
 	r.Add("evaluations", int64(res.Executions))
 	r.Add("sched_executions", int64(res.Executions))
 	r.Add("sched_choice_points", int64(res.Points))
 	r.Add("sched_jobs", 1)
+	if failing > 0 {
+		r.Add("sched_failing_executions", int64(failing))
+	}
 	if res.SleepCut > 0 {
 		r.Add("sched_executions_cut_as_redundant", int64(res.SleepCut))
 	}
@@ -871,6 +929,9 @@ func runSchedJob(r *runner.Run, t *testing.T, j schedJob) {
 	sum := map[string]any{"executions": res.Executions, "max_points": res.MaxPoints, "preemption_bound": s.Bound, "exhaustive_within_bound": res.Exhaustive, "distinct_logs": len(res.Outcomes)}
 	if s.Sleep {
 		sum["reduction"] = "sleep sets over lock/connection footprints"
+	}
+	if failing > 0 {
+		sum["failing_executions"] = failing
 	}
 	for k, v := range info {
 		if j.shard == 0 {
@@ -892,10 +953,20 @@ func runSchedJob(r *runner.Run, t *testing.T, j schedJob) {
 	for c := range classes {
 		r.Distinct("sched|" + s.Name + "|" + c)
 	}
-	if f := res.Failure; f != nil {
-		r.Violation(s.VioKey(f.Message), fmt.Sprintf("[%s] %s\n  schedule: %v\n  trace: %s\n  log: %v", s.Name, f.Message, f.Schedule, f.Trace, f.Log),
+	keys := make([]string, 0, len(found))
+	for k := range found {
+		keys = append(keys, k)
+	}
+	sort.Strings(keys)
+	for _, k := range keys {
+		k, f := k, found[k]
+		r.Violation(k, fmt.Sprintf("[%s] %s\n  schedule: %v\n  trace: %s\n  log: %v", s.Name, f.Message, f.Schedule, f.Trace, f.Log),
 			schedReplayObject(s.Name, f), func() bool {
-				again := sched.Explore(t, sched.Options{Name: s.Name, Bound: s.Bound, Replay: f.Schedule, OnExecution: oracle}, s.Body)
+				again := sched.Explore(t, sched.Options{Name: s.Name, Bound: s.Bound, Replay: f.Schedule, OnExecution: func(x *sched.Exec) {
+					if msg := judge(oracle, x); msg != "" && (s.VioKey(msg) == k || strings.HasPrefix(k, "sched-deadlock:")) {
+						sched.Failf("%s", msg)
+					}
+				}}, s.Body)
 				return again.Failure != nil && again.InfraErr == nil
 			})
 	}
@@ -927,7 +998,11 @@ func schedReplay(r *runner.Run, t *testing.T, path string) bool {
 				r.Infra("replay %s: %v", s.Name, err)
 				return true
 			}
-			res := sched.Explore(t, sched.Options{Name: s.Name, Bound: s.Bound, Replay: doc.Replay.Schedule, OnExecution: oracle}, s.Body)
+			res := sched.Explore(t, sched.Options{Name: s.Name, Bound: s.Bound, Replay: doc.Replay.Schedule, OnExecution: func(x *sched.Exec) {
+				if msg := judge(oracle, x); msg != "" {
+					sched.Failf("%s", msg)
+				}
+			}}, s.Body)
 			r.Add("evaluations", int64(res.Executions))
 			switch {
 			case res.InfraErr != nil:
